@@ -48,8 +48,9 @@ PROP = {'gen': [],
                'without that side condition the clause of the property text is FALSE of the code '
                '(C18_matcher_never_prevents_refuted) and of every matcher that satisfies the first clause (lemma '
                'C18_clauses_incompatible); that class is a known finding. The parsers never panic and whatever they accept prints to a '
-               'string that parses back to the same value. The variant order behind the derived Ord of Key and the modifier masks are '
-               're-extracted from src/keys.rs on every run (C18_key_order_is_source_order). Specification-side facts are Lemmas, not '
+               'string that parses back to the same value. The parsers\' vocabulary (name and modifier literals), the variant order behind the derived Ord of Key and the '
+               'modifier masks are re-extracted from src/keys.rs on every run (C18_parser_vocabulary_is_source, '
+               'C18_key_order_is_source_order), so the parser theorems hold of the table the code has now. Specification-side facts are Lemmas, not '
                'counted as obligations. Model tied to the code by a differential run; the predicate evaluates the English clauses '
                'directly on the stream of handle() answers; idle / pending / the known class are decided on the dictionary side.',
  'level_note': 'Trusted: Coq kernel + vm_compute; translate/c18keys.py; hand-written models validated by the correspondence run; str::to_lowercase is an '
@@ -74,7 +75,7 @@ PROP = {'gen': [],
                   'str::to_lowercase as an oracle constrained by lower_spec (Keys/KeyParseProofs.v); the two assumed facts are '
                   're-checked on every answer used in a case',
                   'specification: dictionary of chords (reg, spec_lookup, spec_override) written from the property text and validated by the lemma C18_last_writer; the matcher clauses are evaluated on the handle() stream, spec_handle serves as bookkeeping (pending keys, class decision) only',
-                  'translate/c18keys.py: variant order of enum KeyName and the KeyMod constants re-extracted from src/keys.rs on every run (Gen/C18Keys.v)',
+                  'translate/c18keys.py: variant order of enum KeyName, the KeyMod constants and the literal match arms of KeyName::from_str / Key::from_str (the parsers\' vocabulary) re-extracted from src/keys.rs on every run (Gen/C18Keys.v); the model\'s name and modifier tables are built from them, an arm shape the translator cannot read fails the check; the harness reads the same literals from the source for its fixed cases',
                   HARNESS],
  'assumptions': ['the empty chord is not a chord: registering it is a no-op (as in the code) and lookups of it are outside the statement',
                  'KNOWN FINDING (class unbound-key-continues-pending-chord): "an unbound key never prevents the next chord" is proved '
